@@ -114,6 +114,10 @@ def gen_names(rng, n):
             nm = '%s%s%d%02d' % (rng.choice('ABCxyz'), rng.choice('ABCxyz '), rng.randint(0, 9), rng.randint(0, 99))
             if nm[3] == '0':
                 pass
+        elif r < 0.22:
+            # names no convention produces, read with check_blocknames=False: a digit third, a blank fourth and a LETTER
+            # last (nothing for the (A3,I2) repair to do: the name is kept as it is)
+            nm = '%s%s%d %s' % (rng.choice('WFQ'), rng.choice('LRx'), rng.randint(0, 9), rng.choice('Afmz'))
         elif conv == 0:
             nm = '%3s%2d' % (rng.choice([' ab', '  c', 'xyz', ' AA', 'ATM']), rng.randint(0, 99))
         elif conv == 1:
